@@ -860,3 +860,21 @@ mod tests {
         })
     }
 }
+
+/// Verification hooks (compiled only with `--cfg scrut_verif`): forwarding wrappers that expose
+/// crate-private leaf functions to the external harness crates. No behaviour of its own.
+#[cfg(scrut_verif)]
+pub mod verif_hooks {
+    pub fn space_start_index(input: &str) -> usize {
+        super::space_start_index(input)
+    }
+
+    pub fn higlight_tailing_spaces(input: &str) -> String {
+        use super::TailingSpacesHighlighter;
+        input.higlight_tailing_spaces()
+    }
+
+    pub fn decorator_output_line_number(max_lines: usize, num: Option<usize>) -> String {
+        super::Decorator::new(max_lines).output_line_number(num)
+    }
+}
